@@ -5,16 +5,52 @@ from colorsys import hsv_to_rgb, rgb_to_hsv
 from tinycss2.color4 import parse_color
 
 
+# Matrices from https://www.w3.org/TR/css-color-4/#color-conversion-code.
+_XYZ_D50_TO_D65 = (
+    (0.955473421488075, -0.02309845494876471, 0.06325924320057072),
+    (-0.0283697093338637, 1.0099953980813041, 0.021041441191917323),
+    (0.012314014864481998, -0.020507649298898964, 1.330365926242124),
+)
+_XYZ_D65_TO_LINEAR_SRGB = (
+    (3.2409699419045226, -1.537383177570094, -0.4986107602930034),
+    (-0.9692436362808796, 1.8759675015077202, 0.04155505740717559),
+    (0.05563007969699366, -0.20397695888897652, 1.0569715142428786),
+)
+
+
+def _multiply(matrix, vector):
+    return tuple(
+        sum(value * coordinate for value, coordinate in zip(line, vector))
+        for line in matrix)
+
+
 def get_color(style, key):
     """Return color, taking care of possible currentColor value."""
     value = style[key]
     return value if value != 'currentcolor' else style['color']
 
 
+def to_srgb(color):
+    """Return the (r, g, b) coordinates of color in sRGB, clipped to [0, 1]."""
+    if color.space in ('srgb', 'hsl', 'hwb'):
+        return color.to('srgb')[:3]
+    elif color.space in ('xyz-d50', 'lab', 'lch'):
+        xyz = _multiply(_XYZ_D50_TO_D65, color.to('xyz-d50')[:3])
+    elif color.space in ('xyz-d65', 'oklab', 'oklch'):
+        xyz = color.to('xyz-d65')[:3]
+    else:
+        # Unsupported color space, use sRGB instead as when drawing.
+        return color[:3]
+    return tuple(
+        min(1, max(0, (
+            12.92 * channel if channel <= 0.0031308
+            else 1.055 * channel ** (1 / 2.4) - 0.055)))
+        for channel in _multiply(_XYZ_D65_TO_LINEAR_SRGB, xyz))
+
+
 def darken(color):
     """Return a darker color."""
-    # TODO: handle color spaces.
-    hue, saturation, value = rgb_to_hsv(*color.to('srgb')[:3])
+    hue, saturation, value = rgb_to_hsv(*to_srgb(color))
     value /= 1.5
     saturation /= 1.25
     return parse_color(
@@ -23,8 +59,7 @@ def darken(color):
 
 def lighten(color):
     """Return a lighter color."""
-    # TODO: handle color spaces.
-    hue, saturation, value = rgb_to_hsv(*color.to('srgb')[:3])
+    hue, saturation, value = rgb_to_hsv(*to_srgb(color))
     value = 1 - (1 - value) / 1.5
     if saturation:
         saturation = 1 - (1 - saturation) / 1.25
